@@ -595,7 +595,9 @@ func (w *World) Check(ctx sdk.Context, l *Ledger, fail func(a, s, d string)) {
 						w.maxExtra("max_geo_reverse_err_over_bound", geoRatio(q.Val, ys, rho))
 					}
 					// between min and max of the prices in force
-					rho := newF().SetRat(ref.Rho)
+					// (the same float-conversion margin on the reciprocity defect as in the reverse-direction check above: with a
+					// single observation in force the answer 1/P0 sits exactly at the edge of the defect)
+					rho := fMul(newF().SetRat(ref.Rho), newF().SetFloat64(1.000001))
 					if d == 0 {
 						rho = zero
 					}
